@@ -54,7 +54,7 @@ Definition fnv (s : list Z) : Z := fold_left fnv_step s html_hash_hash0.
 Definition opt_res {A} (o : option A) : res A := match o with Some a => Ok a | None => Panic end.
 
 (* t := _Hash_text[i>>8 : i>>8+i&0xff]; for k < len(s) { if t[k] != s[k] -> differs } *)
-Fixpoint hash_cmp (t s : list Z) : res bool :=
+Fixpoint hash_cmp (t s : list Z) {struct s} : res bool :=
   match s with
   | [] => Ok true
   | c :: s' => match t with
@@ -586,3 +586,10 @@ Definition next (c : cfg) (l0 : lexer) : res (Z * option sl * lexer) :=
     else
       next_content c (mkL z 0 (intag l) (lerr l) (ltext l) (lattr l) has)
   else next_content c l.
+
+(* ---- a caller: n calls of Next, whatever they return -------------------------------------------------- *)
+Fixpoint run (c : cfg) (n : nat) (l : lexer) : res (list (Z * option sl * lexer)) :=
+  match n with
+  | O => Ok []
+  | S k => r <-- next c l ;; rest <-- run c k (snd r) ;; Ok (r :: rest)
+  end.
